@@ -184,6 +184,36 @@ def run_cases(args):
     return out
 
 
+def twins_in_two_threads(a):
+    """(child) a dataset and its copy (same relative paths inside) opened, listed and checked by two threads of one process at the same
+    time, repeatedly: a relocated copy behaves exactly like the original whatever else the process is doing."""
+    import threading, time
+    sp.sedpack()
+    from sedpack.io import Dataset
+    from harness.checks import iter_common as I
+    base = Path(a["base"]); shutil.rmtree(base, ignore_errors=True); base.mkdir(parents=True)
+    orig = base / "orig"; copy = base / "moved to" / "cöpy"
+    I.build_dataset(orig, a["fmt"], "", 1, [{"sub": ".", "writes": [(0, a["shards"])]}, {"sub": "a", "writes": [(0, 20)]}])
+    copy.parent.mkdir(parents=True); shutil.copytree(orig, copy)
+    errs, rounds = [], {"orig": 0, "copy": 0}
+    t0 = time.time()
+    def loop(name, root):
+        try:
+            while time.time() - t0 < a["secs"] and not errs:
+                d = Dataset(root)
+                n = sum(1 for _ in d.shard_info_iterator("train"))
+                if n != a["shards"] + 20: errs.append(f"{name}: {n} shards listed"); return
+                d.check(show_progressbar=False)
+                rounds[name] += 1
+        except Exception as e:  # noqa: BLE001
+            errs.append(f"{name}: {type(e).__name__}: {str(e)[:160]}")
+    ths = [threading.Thread(target=loop, args=("orig", orig)), threading.Thread(target=loop, args=("copy", copy))]
+    for t in ths: t.start()
+    for t in ths: t.join(a["secs"] + 120)
+    shutil.rmtree(base, ignore_errors=True)
+    return {"errors": errs[:3], "rounds": rounds}
+
+
 def other_locale(args):
     """(child started with LC_ALL=C PYTHONUTF8=0 PYTHONCOERCECLOCALE=0: the default text encoding is ASCII) — the description files are
     UTF-8 whatever the process's locale: create / fill / reopen / check / continue, and open a dataset a UTF-8 process wrote."""
@@ -242,6 +272,11 @@ def run(ctx):
     versions += [[rng.choice([0, 0, 1, 12]), rng.choice([0, 0, 2, 30]), rng.choice([0, 5, 7, 9, 11, 123])] for _ in range(ctx.pick(6, 40))]
     res = child.call("harness.checks.c20", "run_cases", {"base": str(ctx.scratch / "c20"), "seed": rng.randrange(1 << 30), "n_descr": ctx.pick(9, 60),
                                                          "move_fmts": ["fb"] if not ctx.thorough else ["fb", "npz", "tfrec"], "versions": versions, "n_defaults": ctx.pick(30, 300), "keep": 2}, timeout=1800)
+    # ---- the original and its copy used by two threads at once
+    tw = child.call("harness.checks.c20", "twins_in_two_threads", {"base": str(ctx.scratch / "c20_twins"), "fmt": ["npz", "fb"][ctx.seed % 2], "shards": ctx.pick(200, 400), "secs": ctx.pick(5, 20)}, timeout=900)
+    if tw["errors"]:
+        ctx.report({"kind": "relocation", "how": "two-threads"}, f"a dataset and its copy opened, listed and checked by two threads at the same time: {tw['errors'][0]} (rounds completed: {tw['rounds']})", {"twins": tw})
+    ctx.cov["twin_rounds_in_two_threads"] = tw["rounds"]
     # ---- the same under another default text encoding (a process whose locale is not UTF-8)
     loc = child.call("harness.checks.c20", "other_locale", {"base": str(ctx.scratch / "c20_locale"), "fmts": ["npz", "fb"] if not ctx.thorough else ["npz", "fb", "tfrec"], "existing": res.get("kept", [])},
                      timeout=900, env={"LC_ALL": "C", "LANG": "C", "PYTHONUTF8": "0", "PYTHONCOERCECLOCALE": "0"})
